@@ -7,7 +7,7 @@ VARIABLES i, nbad
 vars == <<i, nbad>>
 
 Judge(o) ==
-    (IF o.panic THEN {"C10.NoPanic"} ELSE {})
+    (IF o.panic THEN {"C10.NoPanic", "C11.NoPanic"} ELSE {})
     \cup (IF o.same THEN {} \* nothing is converted or buffered on a pass-through route
           ELSE Verdict([wire |-> o.wire, plain |-> o.plain, recoded |-> o.recoded], o.scn.L, o.ok, o.delivered, o.code, o.held))
 Init == i = 1 /\ nbad = 0
